@@ -15,8 +15,8 @@ var rules = map[string]string{
 }
 
 var components = map[string]any{
-	"real": []string{"github.com/josephburnett/jd/v2 (all of it)", "github.com/josephburnett/jd/lib (all of it)", "main.go and v2/jd/main.go bodies: flag definitions, mode selection, option translation, error paths", "gopkg.in/yaml.v2, encoding/json, go-openapi/jsonpointer, yudai/golcs", "package flag's parser (a private FlagSet per binary)"},
-	"stub": []string{"os (files, stdin, stdout, stderr, exit, env), io/ioutil, printing half of fmt, log (timestamp from the logical clock), net/http (serving fails at once), os/exec (no subprocess), math/rand (fixed seed)"},
+	"real":    []string{"github.com/josephburnett/jd/v2 (all of it)", "github.com/josephburnett/jd/lib (all of it)", "main.go and v2/jd/main.go bodies: flag definitions, mode selection, option translation, error paths", "gopkg.in/yaml.v2, encoding/json, go-openapi/jsonpointer, yudai/golcs", "package flag's parser (a private FlagSet per binary)"},
+	"stub":    []string{"os (files, stdin, stdout, stderr, exit, env), io/ioutil, printing half of fmt, log (timestamp from the logical clock), net/http (serving fails at once), os/exec (no subprocess), math/rand (fixed seed)"},
 	"changed": []string{"every map range in jd goes through the order seam (canonical order unless the history engine permutes it)", "os.Exit is a panic recovered by the simulator", "func main renamed Main, package main renamed"},
 }
 
@@ -44,30 +44,30 @@ func writeEvidence(verif, prop, tier string, seed uint64, cfg tierCfg, total *St
 		perHour = float64(total.Runs) / simWall * 3600
 	}
 	cov := map[string]any{
-		"evaluations":         total.Cases,
-		"distinct_nontrivial": nontrivial,
-		"distinct_signatures": distinct,
-		"rule":                rules[prop],
-		"samples":             sm,
-		"simulated_runs":      total.Runs,
-		"runs_per_hour":       int64(perHour),
-		"seeds_per_hour":      int64(perHour),
-		"simulated_processes": total.Procs,
-		"library_calls":       total.LibCalls,
-		"simulated_time":      fmt.Sprintf("%d I/O steps (logical clock: one tick per step; jd has no timers)", total.Steps),
-		"fault_kinds_fired":   total.Fired,
-		"clauses_evaluated":   total.Clauses,
-		"probes":              total.Probes,
-		"unreached":           orEmpty(unreached),
+		"evaluations":                           total.Cases,
+		"distinct_nontrivial":                   nontrivial,
+		"distinct_signatures":                   distinct,
+		"rule":                                  rules[prop],
+		"samples":                               sm,
+		"simulated_runs":                        total.Runs,
+		"runs_per_hour":                         int64(perHour),
+		"seeds_per_hour":                        int64(perHour),
+		"simulated_processes":                   total.Procs,
+		"library_calls":                         total.LibCalls,
+		"simulated_time":                        fmt.Sprintf("%d I/O steps (logical clock: one tick per step; jd has no timers)", total.Steps),
+		"fault_kinds_fired":                     total.Fired,
+		"clauses_evaluated":                     total.Clauses,
+		"probes":                                total.Probes,
+		"unreached":                             orEmpty(unreached),
 		"map_range_sites_permuted_nontrivially": total.MapSites,
-		"components":          components,
-		"determinism_selftest": det,
-		"fidelity_selftest":   fid,
-		"workers":             workers,
-		"batch_ended_by":      endedBy,
-		"inconclusive_cases":  inconclusive,
-		"known_findings":      orEmpty(knownLines),
-		"exhaustive":          false,
+		"components":                            components,
+		"determinism_selftest":                  det,
+		"fidelity_selftest":                     fid,
+		"workers":                               workers,
+		"batch_ended_by":                        endedBy,
+		"inconclusive_cases":                    inconclusive,
+		"known_findings":                        orEmpty(knownLines),
+		"exhaustive":                            false,
 	}
 	ev := map[string]any{
 		"property_id": prop,
